@@ -442,7 +442,7 @@ func (s *store) MatchTerms(field index.Field) (list posting.List, timestamps pos
 			strconv.FormatFloat(field.GetFloat(), 'f', -1, 64)).
 			SetField(field.Key.Marshal()))
 	case nil:
-		return roaring.DummyPostingList, roaring.DummyPostingList, nil
+		return roaring.NewPostingList(), roaring.NewPostingList(), nil
 	default:
 		return nil, nil, errors.Errorf("unexpected field type: %T", field.GetTerm())
 	}
@@ -468,7 +468,7 @@ func (s *store) MatchTerms(field index.Field) (list posting.List, timestamps pos
 
 func (s *store) Match(fieldKey index.FieldKey, matches []string, opts *modelv1.Condition_MatchOption) (posting.List, posting.List, error) {
 	if len(matches) == 0 || fieldKey.Analyzer == index.AnalyzerUnspecified {
-		return roaring.DummyPostingList, roaring.DummyPostingList, nil
+		return roaring.NewPostingList(), roaring.NewPostingList(), nil
 	}
 	reader, err := s.writer.Reader()
 	if err != nil {
@@ -518,7 +518,7 @@ func getMatchOptions(analyzerOnIndexRule string, opts *modelv1.Condition_MatchOp
 func (s *store) Range(fieldKey index.FieldKey, opts index.RangeOpts) (list posting.List, timestamps posting.List, err error) {
 	iter, err := s.Iterator(context.TODO(), fieldKey, opts, modelv1.Sort_SORT_ASC, defaultRangePreloadSize)
 	if err != nil {
-		return roaring.DummyPostingList, roaring.DummyPostingList, err
+		return roaring.NewPostingList(), roaring.NewPostingList(), err
 	}
 	list, timestamps = roaring.NewPostingList(), roaring.NewPostingList()
 	for iter.Next() {
